@@ -31,6 +31,18 @@ def corpus(rep):
         if b["exit"] in ("return", "return_midexpr") and b["place"] == "inline":
             continue
         progs.append(("c02:%d" % i, c02_driver.render_program(b, 3)))
+    # every body of C02.tla's family (inner construct x way out x enclosure x place), as enumerated by TLC for this tier:
+    # whatever an abrupt exit leaves on the operand stack becomes an operand of the enclosing expression
+    en = tlc.run(rep.pid, "C02", ENUM_CFG, env={"TIER": rep.tier}, timeout=900, tag="enum_c02_bodies")
+    seen_b = set()
+    for c in en.records:
+        if c.get("kind") == "body":
+            key = json.dumps(c["b"], sort_keys=True)
+            if key not in seen_b:
+                seen_b.add(key)
+                progs.append(("c02b:" + "/".join(c["b"][k] for k in ("inner", "exit", "encl", "place")), c02_driver.render_program(c["b"], 2)))
+    if len(seen_b) < 100:
+        raise Machinery("C02 body enumeration too small: %d" % len(seen_b))
     for name, src in c02_driver.SHAPES.items():
         progs.append(("shape:" + name, src.replace("n++;", "n++; if (n>20) return 0;")))
     extra = [
@@ -62,10 +74,13 @@ def run(rep):
     # 2. enumerate receiver kinds x access forms; fetch the list of legitimate JavaScript property names
     en = tlc.run(rep.pid, "C03", ENUM_CFG, env={"TIER": rep.tier}, timeout=600, tag="enum")
     rep.add_tlc("C03.Enum", en)
-    legit, combos = None, set()
+    legit, combos, probes = None, set(), []
     for c in en.records:
         if "legit" in c:
             legit = set(c["legit"])
+        elif "probe" in c:
+            if c["probe"] not in probes:
+                probes.append(c["probe"])
         else:
             combos.add((c["recv"], c["form"]))
     if legit is None or len(combos) < 300:
@@ -93,9 +108,15 @@ def run(rep):
     progs = corpus(rep)
     for i, (nm, src) in enumerate(progs):
         cases.append({"id": "t%d:%s" % (i, nm), "kind": "trace", "src": src})
+    from checks import c03_driver
+    if len(probes) < 150:
+        raise Machinery("too few probes: %d" % len(probes))
+    for i, q in enumerate(probes):
+        cases.append({"id": "p%d:%s" % (i, "/".join(str(q[k]) for k in sorted(q))), "kind": "probe", "src": c03_driver.render_probe(q)})
+    rep.spaces.append({"space": "probes: callback this/arguments, match results, conversions, call forms, None-returning host function, JSON callbacks",
+                       "cases": len(probes), "complete": not quick})
     cases.append({"id": "retprobe", "kind": "ret_probe"})
     cand = sorted(legit | {n for n in hv[0]["names"] if not n.startswith("_")})
-    from checks import c03_driver
     for recv in sorted(c03_driver.RECV):
         if recv in ("null", "undefined"):
             continue
